@@ -61,6 +61,9 @@ RULE = ("matrix part: every m x n (1<=n<=m<=4, thorough 6; generic members to 8;
         "read-only transposed view, read-only C copy: arguments bit-identical afterwards, no exception, second call "
         "with the same objects identical, result independent of layout) on all members except 3 of 4 members of "
         "the exhaustive small-entry families. "
+        "Chordal pairs of DIFFERENT column counts (1 vs 2, 2 vs 4, 1 vs 3, 3 vs 2, 1 vs m; generic and nested; real "
+        "and complex): calc_chordal_distance and calc_chordal_distance_2 against ||P1-P2||_F/sqrt(2) of harness "
+        "projectors, symmetric, agreeing (a routine that raises and the principal-angle route: outcomes only). "
         "Rank-deficient members and members above the relation's kappa bound are excluded and counted. "
         "A case is non-trivial when the matrix has more than one entry; distinct = distinct "
         "(kernel, family, member, shape, parameter)")
@@ -1024,6 +1027,79 @@ def run_chordal(chk, case):
 
 
 # ----------------------------------------------------------------------
+# chordal distance between subspaces of DIFFERENT dimension
+# ----------------------------------------------------------------------
+def mixed_pairs(tier):
+    """(A m x k1, B m x k2) with k1 != k2: 1 vs 2, 2 vs 4, 1 vs 3, 2 vs 3 columns, both orders, generic and
+    NESTED subspaces (span A inside span B), real and complex"""
+    S = 6 if tier == "thorough" else 3
+    for m in range(2, 7):
+        for (k1, k2) in ((1, 2), (2, 1), (2, 4), (4, 2), (1, 3), (3, 2), (1, m)):
+            if max(k1, k2) > m or k1 == k2:
+                continue
+            for s in range(S):
+                for cplx, nm in ((True, "c"), (False, "r")):
+                    A = F.generic(s, (m, k1), cplx, tag=35)
+                    B = F.generic(s + 7, (m, k2), cplx, tag=35)
+                    yield ("mixed_generic_" + nm, (s, m, k1, k2), A, B)
+                    big, small = (B, k1) if k2 > k1 else (A, k2)
+                    T = F.generic(s, (big.shape[1], small), cplx, tag=36)
+                    nested = big @ T                                   # spans a subspace of span(big)
+                    yield ("mixed_nested_" + nm, (s, m, k1, k2), nested if k1 < k2 else A, B if k1 < k2 else nested)
+
+
+def run_chordal_mixed(chk, case):
+    """first principles: d = ||P1 - P2||_F / sqrt(2) with the orthogonal projectors computed by the check;
+    judged for the routines that accept operands of different column counts (on HEAD: the QR based and the
+    projection based one); a routine that raises, and the principal-angle route (documented as not defined
+    there), are outcomes only"""
+    from pyphysim.subspace import metrics as MT
+    A, B = np.asarray(case["A"]), np.asarray(case["B"])
+    m, k1 = A.shape
+    k2 = B.shape[1]
+    ka, _ = kappa_of(A)
+    kb, _ = kappa_of(B)
+    chk.count("chordal_mixed_pairs_enumerated")
+    if not (math.isfinite(ka) and math.isfinite(kb)) or max(ka, kb) > bound(K_PROJ):
+        chk.count("excluded_projection_kappa_above_1e4")
+        return
+    kap = max(ka, kb)
+    dref = float(np.linalg.norm(ref_projector(A) - ref_projector(B), "fro") / math.sqrt(2))
+    sq = math.sqrt(max(k1, k2))
+    tol = {"calc_chordal_distance": C * N.EPS * kap * sq * 4, "calc_chordal_distance_2": C * N.EPS * kap ** 2 * sq * 4}
+    chk.outcome("chordal_mixed_dims", (m, k1, k2, "nested" if "nested" in case["fam"] else "generic"))
+    got = {}
+    for nm in ("calc_chordal_distance", "calc_chordal_distance_2"):
+        for order, (X, Y) in (("AB", (A, B)), ("BA", (B, A))):
+            chk.count("eval_chordal_mixed")
+            try:
+                got[(nm, order)] = float(getattr(MT, nm)(np.array(X), np.array(Y)))
+            except Exception as e:  # noqa  - a routine may not accept unequal dimensions: outcome only
+                chk.outcome("unequal_dimensions", (nm, "raised:" + type(e).__name__))
+                got[(nm, order)] = None
+    for (nm, order), v in got.items():
+        if v is None:
+            continue
+        chk.outcome("unequal_dimensions", (nm, "accepted"))
+        if not abs(v - dref) <= tol[nm]:
+            chk.fail(("chordal", "unequal_dimensions", "value", nm), dict(case, order=order), observed=v, expected=dref,
+                     msg="d(%dx%d, %dx%d) vs ||P1-P2||_F/sqrt(2)" % ((m, k1, m, k2) if order == "AB" else (m, k2, m, k1)))
+    for nm in ("calc_chordal_distance", "calc_chordal_distance_2"):
+        a, b = got[(nm, "AB")], got[(nm, "BA")]
+        if a is not None and b is not None and not abs(a - b) <= 2 * tol[nm]:
+            chk.fail(("chordal", "unequal_dimensions", "symmetry", nm), case, observed=(a, b), expected="equal")
+    a, b = got[("calc_chordal_distance", "AB")], got[("calc_chordal_distance_2", "AB")]
+    if a is not None and b is not None and not abs(a - b) <= tol["calc_chordal_distance_2"] + tol["calc_chordal_distance"]:
+        chk.fail(("chordal", "unequal_dimensions", "routines_disagree"), case, observed=(a, b), expected=dref)
+    try:                                                # principal-angle route: not defined here, outcome only
+        pa = MT.calc_principal_angles(np.array(A), np.array(B))
+        chk.outcome("unequal_dimensions", ("calc_principal_angles", "accepted", int(np.size(pa))))
+    except Exception as e:  # noqa
+        chk.outcome("unequal_dimensions", ("calc_principal_angles", "raised:" + type(e).__name__))
+    chk.nontriv(("chordal_mixed", case["fam"], tuple(case["member"])))
+
+
+# ----------------------------------------------------------------------
 # conversions
 # ----------------------------------------------------------------------
 def run_conv(chk):
@@ -1174,6 +1250,8 @@ def main(chk: Check):
                                "battery": member == 0})
             for fam, member, A, B in shard(chordal_pairs(c.tier), i, n):
                 run_chordal(c, {"part": "chordal", "fam": fam, "member": member, "A": A, "B": B})
+            for fam, member, A, B in shard(mixed_pairs(c.tier), i, n):
+                run_chordal_mixed(c, {"part": "chordal_mixed", "fam": fam, "member": member, "A": A, "B": B})
         except Broken as e:             # carried to the parent (a worker cannot exit 2 by itself)
             c.extra["broken_in_worker"] = str(e)
 
@@ -1193,6 +1271,7 @@ def main(chk: Check):
     chk.require_outcomes("eig_select", 20)
     chk.require_outcomes("whiten", 6)
     chk.require_outcomes("chordal_bucket", 12)
+    chk.require_outcomes("chordal_mixed_dims", 20)
     chk.require_outcomes("update_nonzero_d", 10)
     chk.require_outcomes("update_input_class", 6)
     chk.require_outcomes("update_structure_x_diagonal", len(UPDATE_STRUCTURE_AXIS) * len(UPDATE_DIAG_KINDS))
@@ -1205,6 +1284,8 @@ def replay(case, chk: Check):
         replay_matrix(chk, case)
     elif part == "update":
         run_update(chk, case)
+    elif part == "chordal_mixed":
+        run_chordal_mixed(chk, case)
     elif part == "chordal":
         run_chordal(chk, case)
     else:
